@@ -212,3 +212,12 @@ reg("C13",
     kernel_groups=["Tables"],
     partial_clauses=["PyYAML itself (yaml.safe_load) is trusted; YAML == dict is decided by the oracle and the extracted body of load_config"],
     assumptions=["an empty output_levels list falls through to full_output / the default level (Python truthiness) — implemented behaviour, stated"])
+
+reg("C12",
+    T("Proofs.C12", "BLDFM.C12", ["solve_output_state_free", "solve_output_history_free", "repeat_same", "threads_only_by_set",
+                                  "mgr_after_solve", "worker_reset_canonical", "worker_solve_eq_fresh"])
+    + T("Proofs.Bridge.Tables", "BLDFM.Bridge", ["global_state_table"], "bridge"),
+    kernel_groups=["Tables"],
+    partial_clauses=["that the serial and the parallel numba kernel variants, FFTW's planner (wisdom file, plan cache, thread count) and numba's thread scheduling "
+                     "give bit-identical / 1e-12-equal numbers, and that single precision differs by 1e-5: OBSERVED by the oracle on histories, not proved"],
+    assumptions=["the process-global state reachable from a solve is the extracted table (global_state_table)"])
